@@ -81,14 +81,16 @@ def run(F, R):
         for c in tn:
             for sb, val in controlling_switches(g, c.bb):
                 si = g.switch_info(sb)
-                subj = si[1][0] if si[0] == "enum" else si[1]
-                if not subj:
-                    continue
+                if si[0] != "bool" or not si[1]:
+                    continue          # `?` on the cast's Result is not the cast decision
+                subj = si[1]
                 from_param = derives_from(g, ["c:" + subj], lambda k, x: (k == "place" and place_local(x) == 2 and x) or None)
                 from_capture = derives_from(g, ["c:" + subj], lambda k, x: (k == "place" and x.startswith("1|") and x) or None)
                 detail.append((bool(from_param), bool(from_capture)))
-                if from_param and not from_capture:
-                    ok4 = True
+        ok4 = bool(detail) and all(fp and not fc for fp, fc in detail)
+        if True:
+            if True:
+                pass
         R.check(ok4, "C30.R4", "sql:cast-decided-per-batch", "the decision to cast a result batch does not come from that batch (it is captured from outside the per-batch closure, e.g. computed from the first batch): a later batch that is dictionary-encoded while the first is not is returned uncast under a schema that says Utf8", g.loc(), dict(guards=detail))
     R.floor("C30.R4", "per-batch cast closures in sql()", n4, 1)
     # ---- R5: typed NULL columns
